@@ -843,7 +843,10 @@ def getattr_(I, o, name):
         m = I.repo.find_method(o.cls, name)
         if m is not None:
             if m.kind == "property":
-                return I.call_func(FuncVal(m, o, cls_ctx=m.cls), [], {})
+                v = I.call_func(FuncVal(m, o, cls_ctx=m.cls), [], {})
+                if getattr(m, "cached", False):
+                    o.fields[name] = v                 # functools.cached_property: the first value stays, whatever changes afterwards
+                return v
             if m.kind == "staticmethod":
                 return FuncVal(m, None, cls_ctx=m.cls)
             if m.kind == "classmethod":
